@@ -463,6 +463,7 @@ func (s *session) doTargetTooHigh(reject targetTooHigh) (nextState resendState, 
 
 func (s *session) sendResendRequest(beginSeq, endSeq int) (nextState resendState, err error) {
 	nextState.resendRangeEnd = endSeq
+	nextState.messageStash = make(map[int]*Message)
 
 	resend := NewMessage()
 	resend.Header.SetBytes(tagMsgType, msgTypeResendRequest)
